@@ -634,7 +634,8 @@ class MatrixProduct:
 
             # check convergence
             if isweep > 0 and percent == 0:
-                error = mps.distance(mps_old) / np.sqrt(mps.dot(mps.conj()).real)
+                # prefactors are not involved: relative change of the tensors
+                error = MatrixProduct.distance(mps, mps_old) / np.sqrt(mps.dot(mps.conj()).real)
                 logger.info(f"Variation compress relative error: {error}")
                 if error < mps.compress_config.vrtol:
                     logger.info("Variational compress is converged!")
